@@ -162,7 +162,8 @@ def ctor_rules(rep, prog):
 
 
 def run(prog, rep, tier):
-    inl = lambda f: f.qname == U + "matrix_block"
+    from ..sym import UNIT_HELPERS
+    inl = lambda f: f.qname == U + "matrix_block" or (f.name.startswith("_") and not f.name.startswith("__") and f.qname not in UNIT_HELPERS)
     M = MNF(symmetric=[C])
     # ---------------------------------------------------------------- conditional
     f = need(prog, ND + "conditional")
